@@ -221,7 +221,7 @@ def incumbent_correspondence(ctx, batch):
 
 
 def run(ctx):
-    bdir, A = runcheck.setup(ctx, ["C06", "C06Isres"])
+    bdir, A = runcheck.setup(ctx, ["C06", "C06Isres", "DrvIsres:best_feasible|no_better_feasible|isres_minf_le|agrees_with|stopval"])
     if bdir:
         rng = random.Random(ctx.seed * 71 + 6)
         ps = []
